@@ -137,6 +137,10 @@ class Engine:
         self.inline_depth = inline_depth
         self.intrinsics = []      # (regex, fn, label)
         self.stubs = []           # per-check (regex, fn, label)
+        self.struct_models = {}   # type last segment -> fn(eng, st, base) building a symbolic value
+        self.lenient = False      # under-constrained mode: unknown callees become uninterpreted calls
+        self.usize_bound = None   # if set: every fresh usize (lazy fields, uninterpreted results) is assumed below it
+        self.inline_only = None   # if set: only crate functions matching one of these regexes are inlined
         self.uninterpreted = []   # regexes of callees treated as uninterpreted (effect trace)
         self.no_inline = []       # regexes: crate fns deliberately not inlined (treated uninterpreted)
         self.counter = itertools.count()
@@ -343,6 +347,9 @@ class Engine:
         if payload_makers:
             for vname, mk in payload_makers.items():
                 pl[self.variant_index(name, vname)] = mk()
+        elif name not in STD_DISCR:
+            for vi, vname in enumerate(vs):
+                pl[vi] = Opaque('payload:%s::%s' % (name, vname), next(self.counter))
         return Enum(name, d, pl)
 
     def fresh_of_type(self, st, ty, base='v', depth=0):
@@ -351,6 +358,8 @@ class Engine:
             return self.fresh_bool(base)
         if ty in INT_TYPES:
             v = self.fresh_bv(base, ty)
+            if ty == 'usize' and self.usize_bound is not None:
+                st.assume(z3.ULT(v.e, self.usize_bound))
             if ty == 'char':
                 st.assume(z3.And(z3.ULE(v.e, 0x10FFFF), z3.Or(z3.ULT(v.e, 0xD800), z3.UGT(v.e, 0xDFFF))))
             return v
@@ -374,7 +383,13 @@ class Engine:
             st.assume(z3.Or(d == 0, d == 1))
             return Enum('Result', d, {0: Tup([self.fresh_of_type(st, parts[0], base + '.ok', depth + 1)]),
                                       1: Tup([self.fresh_of_type(st, parts[1] if len(parts) > 1 else '()', base + '.err', depth + 1)])})
+        m = re.match(r"^&('[a-z_]+ )?(mut )?(.*)$", ty)
+        if m and depth < 4:
+            inner = self.fresh_of_type(st, m.group(3), base + '.p', depth + 1)
+            return Ref(self.alloc(st, inner, 'fresh'), (), bool(m.group(2)))
         ls = last_seg(ty)
+        if not ty.startswith('&') and '<' not in ty and ls in self.struct_models:
+            return self.struct_models[ls](self, st, base)
         if not ty.startswith('&') and '<' not in ty:
             vs = self.enum_variants(ls)
             if vs is not None and ls not in STD_ENUMS:
@@ -425,7 +440,7 @@ class Engine:
                         raise Unsupported('field %d of %r' % (p[1], val))
                     val = val.items[p[1]]
                 elif isinstance(val, Opaque):
-                    raise Unsupported('field %d of opaque %r' % (p[1], val))
+                    val = self.lazy_field(st, val, p[1], p[2] if len(p) > 2 else None)
                 else:
                     raise Unsupported('field of %r' % (val,))
             elif k == 'downcast':
@@ -449,6 +464,18 @@ class Engine:
                 raise Unsupported('projection %r' % (p,))
             i += 1
         return val
+
+    def lazy_field(self, st, op, idx, ty):
+        """under-constrained objects: a field of an opaque object is materialised on first use from the
+        type annotation of the MIR projection and memoised per state"""
+        key = ('lazy', op.ident, idx)
+        if key in st.notes:
+            return st.notes[key]
+        if ty is None:
+            raise Unsupported('field %d of opaque %r without type' % (idx, op))
+        v = self.fresh_of_type(st, ty, 'lz%s.%d' % (op.ident, idx))
+        st.notes[key] = v
+        return v
 
     def _guess_variant(self, enumv, vname):
         for nm, vs in STD_ENUMS.items():
@@ -511,7 +538,7 @@ class Engine:
             elif p[0] == 'constindex':
                 out.append(('constindex',) + p[1:])
             elif p[0] == 'field':
-                out.append(('field', p[1]))
+                out.append(('field', p[1], p[2]) if len(p) > 2 else ('field', p[1]))
             else:
                 out.append(p)
         return key, tuple(out)
@@ -527,6 +554,15 @@ class Engine:
         if k == 'field':
             if isinstance(val, Undef):
                 raise Unsupported('field write into undef')
+            if isinstance(val, Opaque):
+                # copy-on-write of a lazily materialised object
+                cur = self.lazy_field(st, val, p[1], p[2] if len(p) > 2 else None)
+                nv = self.update(st, cur, projs[1:], newv)
+                no = Opaque(val.tag, next(self.counter), val.data)
+                for kk in [kk for kk in st.notes if isinstance(kk, tuple) and kk[0] == 'lazy' and kk[1] == val.ident]:
+                    st.notes[('lazy', no.ident, kk[2])] = st.notes[kk]
+                st.notes[('lazy', no.ident, p[1])] = nv
+                return no
             if not isinstance(val, Tup):
                 raise Unsupported('field write into %r' % (val,))
             items = list(val.items)
@@ -559,11 +595,20 @@ class Engine:
         for p in projs:
             k = p[0]
             if k == 'field':
-                val = val.items[p[1]]
+                if isinstance(val, Opaque):
+                    val = self.lazy_field(st, val, p[1], p[2] if len(p) > 2 else None)
+                elif isinstance(val, Tup):
+                    val = val.items[p[1]]
+                else:
+                    raise Unsupported('field of %r' % (val,))
             elif k == 'downcast':
+                if not isinstance(val, Enum):
+                    raise Unsupported('downcast of %r' % (val,))
                 vi = self.variant_index(val.name, p[1]) if val.name else None
                 if vi is None:
                     vi = self._guess_variant(val, p[1])
+                if vi not in val.payloads:
+                    raise Unsupported('downcast to absent payload %s' % (p[1],))
                 val = val.payloads[vi]
             elif k == 'cindex':
                 val = val.items[p[1]]
@@ -967,6 +1012,7 @@ class Engine:
                 return
             if k == 'switch':
                 v = self.eval_operand(s, frame, fn, term[1])
+                self._dbg = (fn.name, bb, term[1])
                 alts = self._switch_alts(s, v, term[2], term[3])
                 if not alts:
                     return
@@ -992,7 +1038,8 @@ class Engine:
                 if bad_feasible:
                     sp = s.fork() if ok_feasible else s
                     sp.assume(z3.Not(ok))
-                    outcomes.append(Outcome('panic', sp, None, {'msg': term[3], 'fn': fn.name, 'bb': bb, 'kind': 'assert'}))
+                    outcomes.append(Outcome('panic', sp, None, {'msg': term[3], 'fn': fn.name, 'bb': bb, 'kind': 'assert',
+                                                                'span': (blk.get('spans') or [None])[-1]}))
                 if ok_feasible:
                     s.assume(ok)
                     bb = term[4]
@@ -1012,6 +1059,8 @@ class Engine:
                         else:
                             work.append((s2, term[4]))
                     else:
+                        if isinstance(val, dict) and val.get('fn') == fn.name and 'span' not in val:
+                            val['span'] = (blk.get('spans') or [None])[-1]
                         outcomes.append(Outcome(kind, s2, None, val))
                 if first is None:
                     return
@@ -1030,7 +1079,7 @@ class Engine:
         elif isinstance(v, Enum):
             e = v.discr
         else:
-            raise Unsupported('switchInt on %r' % (v,))
+            raise Unsupported('switchInt on %r (operand %r)' % (v, self._dbg))
         w = e.size()
         es = z3.simplify(e)
         if z3.is_bv_value(es):
@@ -1061,7 +1110,12 @@ class Engine:
     def _do_call(self, s, frame, fn, bb, term):
         _, dest, func, ops, ret = term
         args = [self.eval_operand(s, frame, fn, o) for o in ops]
-        dest_ty = fn.locals.get(dest[0]) if not dest[1] else None
+        if not dest[1]:
+            dest_ty = fn.locals.get(dest[0])
+        elif dest[1][-1][0] == 'field' and len(dest[1][-1]) > 2:
+            dest_ty = dest[1][-1][2]
+        else:
+            dest_ty = None
         if func[0] == 'operand':
             fv = self.eval_operand(s, frame, fn, func[1])
             return self.call_value(s, fv, args, dest_ty)
@@ -1135,7 +1189,14 @@ class Engine:
         for rx, f, label in self.intrinsics:
             if rx.search(callee):
                 self.stats['intrinsics_used'][label] = self.stats['intrinsics_used'].get(label, 0) + 1
-                r = f(self, s, args, ci)
+                try:
+                    r = f(self, s, args, ci)
+                except (Unsupported, AttributeError, TypeError, KeyError, IndexError, AssertionError) as e:
+                    if self.lenient:
+                        return [(s, 'ret', self.uninterpreted_call(s, callee, args, ci))]
+                    if isinstance(e, Unsupported):
+                        raise
+                    raise Unsupported('summary %s does not apply to these arguments (%s: %s)' % (label, type(e).__name__, e))
                 if isinstance(r, Forks):
                     return [(s2, 'ret', v) for (s2, v) in r.alts]
                 if isinstance(r, PanicNow):
@@ -1155,10 +1216,14 @@ class Engine:
                 return [(s, 'ret', self.uninterpreted_call(s, callee, args, ci))]
         # 4. inline crate function
         name = self.resolve_call(callee, len(args))
+        if name is not None and self.inline_only is not None and not any(rx.search(name) or rx.search(callee) for rx in self.inline_only):
+            return [(s, 'ret', self.uninterpreted_call(s, callee, args, ci))]
         if name is not None:
             cfn = self.get_fn(name)
             if cfn.kind == 'fn':
                 return self._inline(s, cfn, args)
+        if self.lenient:
+            return [(s, 'ret', self.uninterpreted_call(s, callee, args, ci))]
         raise Unsupported('no model for callee %s (called from %s)' % (callee, ci.fn.name if ci.fn else '?'))
 
     def uninterpreted_call(self, s, callee, args, ci):
